@@ -311,6 +311,24 @@ static void runCase(const std::vector<std::string>& lines) {
             std::string q = tk.str(); GUARD(size_t i = pts.pointIdx(q); fprintf(g_out, "ok %s %s\n", u(i).c_str(), hexs(pts.point(0).name()).c_str())); }
         else if (cmd == "mk.chan") { std::string how = tk.next(); std::string n = tk.str(); SubFrame sf; if (how == "ctor") { Channel c(n); c.data(0); sf.channel(c); } else { Channel c; c.name(n); c.data(0); sf.channel(c); }
             std::string q = tk.str(); GUARD(size_t i = sf.channelIdx(q); fprintf(g_out, "ok %s %s\n", u(i).c_str(), hexs(sf.channel(0).name()).c_str())); }
+        // ---- several containers with repeated names, a sequence of name look-ups across them (C11) ----
+        else if (cmd == "mk.pts" || cmd == "mk.chs") {
+            size_t nc = tk.u64(); std::vector<Points> P_; std::vector<SubFrame> S_;
+            for (size_t c = 0; c < nc; ++c) {
+                size_t k = tk.u64(); Points pts; SubFrame sf;
+                for (size_t i = 0; i < k; ++i) { std::string n = tk.str(); Point p; p.name(n); p.x((float)i); pts.point(p); Channel ch; ch.name(n); ch.data((float)i); sf.channel(ch); }
+                P_.push_back(pts); S_.push_back(sf);
+            }
+            size_t nq = tk.u64(); std::string out = "ok";
+            for (size_t q = 0; q < nq; ++q) {
+                size_t c = tk.u64(); std::string n = tk.str();
+                try { size_t i = (cmd == "mk.pts") ? P_.at(c).pointIdx(n) : S_.at(c).channelIdx(n);
+                      float v = (cmd == "mk.pts") ? P_.at(c).point(n).x() : S_.at(c).channel(n).data();
+                      out += " " + u(i) + ":" + u((size_t)v); }
+                catch (std::invalid_argument&) { out += " x"; }
+            }
+            fprintf(g_out, "%s\n", out.c_str());
+        }
         // ---- byte assembly (C12) ----
         else if (cmd == "h2u" || cmd == "h2i") {
             std::string b = tk.str(); Probe pr;
